@@ -3,7 +3,7 @@ import vlib, taskgen
 from props import taskprops
 
 HARNESS = ("atomh",)
-TRUSTED = ["TaskSM.v is a COARSE model: each handle operation is its read-modify-write plus the dependent release effects in one atomic step (Runnable::run and the idle-cancel path are split at every read-modify-write); it is tied to the code by (i) the layout lemmas over gen/Consts.v (constants and initial state words regenerated from executor/task.rs on every run) and (ii) the oracle-judged exploration of the verbatim source under the deterministic scheduler; a step-by-step replay of real traces in the model is NOT done",
+TRUSTED = ["TaskSM.v is a COARSE model: each handle operation is its read-modify-write plus the dependent release effects in one atomic step (Runnable::run and the idle-cancel path are split at every read-modify-write); it is tied to the code by (i) the layout lemmas over gen/Consts.v (constants and initial state words regenerated from executor/task.rs on every run) and (ii) the oracle-judged exploration of the verbatim source under the deterministic scheduler and (iii) translation validation: every explored trace of the real code is mapped to TaskSM operations (one per read-modify-write of the state word; the operation is chosen from the control context, not from the value written) and replayed in the extracted model, which must be enabled at every step, reproduce every state word the code wrote, and end with the same counts of future drops, output drops and deallocations (tools/taskreplay.py)",
            "sequential consistency only: Release/Acquire choices are recorded, not given a semantics; counter saturation (REF_CRITICAL / WAKE_CRITICAL) excluded",
            "the preservation lemmas (Proofs/TaskOps) are closed by case analysis on the finite part of the state + lia (ZifyBool); they take several minutes of CPU to re-check"]
 ASSUMPTIONS = ["one task; any number of wakers/threads in the model; 2-3 threads in the exploration"]
@@ -12,7 +12,7 @@ ASSUMPTIONS = ["one task; any number of wakers/threads in the model; 2-3 threads
 def tie(rep, tier, rng, model_ok):
     q = tier == "quick"
     cases = taskgen.enum_shapes(5 if q else 7) + taskgen.gen(rng, 4000 if q else 80000)
-    taskprops.run_tasks(rep, "task-schedules", cases)
+    taskprops.run_tasks(rep, "task-schedules", cases, model_ok=model_ok)
     if model_ok:
         taskprops.model_exploration(rep, rng, 20000 if q else 200000)
     rep.cov["rule"] = "handle-operation scripts for 2-3 threads (run, drop runnable, wake by value / by reference, clone, drop waker, cancel, drop token, promise poll/drop) over scripted futures (pending, self-wake, self-cancel, ready, panic, wake-on-drop), spawn and spawn_and_forget; every schedule prefix of length <= %d on the 8 scenario shapes of the repository's loom tests + random schedules; oracle: poll exclusivity, no poll after end, a wake leads to another poll, future/output/memory released exactly once, no access after free. distinct = distinct traces" % (5 if q else 7)
